@@ -140,6 +140,14 @@ def trueFs (e : Env) (chain : List Nat) : List Nat :=
     | b :: bs => let h := e.H ((e.tf.get? b).getD 0) prev; h :: go h bs
   1 :: go 1 (chain.drop 1)
 
+/-- observation-level: does a served checkpoint list contradict a hard-coded filter-header
+checkpoint (entry `i` of a list is the filter header at height `(i+1)*1000`)? -/
+def cpListContradictsObs (hard : List (Nat × Nat)) (l : List Nat) : Bool :=
+  hard.any (fun c => c.1 % 1000 == 0 && c.1 ≥ 1000 &&
+    match l[c.1 / 1000 - 1]? with
+    | some x => x != c.2
+    | none => false)
+
 def runCase : CaseFn := fun c => Id.run do
   let mut out : Array String := #[]
   let mut e : Env := {}
@@ -229,6 +237,7 @@ def runCase : CaseFn := fun c => Id.run do
       let mut servedLists : List (List Nat) := []
       let mut isRound := false
       let mut isFetch := false
+      let mut isCfh := false
       let mut midChain : Option (List Nat) := none
       let mut cutTo : Option Nat := none
       match ws with
@@ -292,8 +301,23 @@ def runCase : CaseFn := fun c => Id.run do
         isFetch := true
         let r := cpRound H 1000 st (cps.map nat!) e.evs
         cands := [(r.1, (match r.2 with | .ok => "ok" | .panic => "PANIC") ++ " | " ++ showSt st r.1)]
+      | ["cfh"] => isCfh := true
       | _ => out := out.push s!"DIFF C03 case {c.num} line {ln}: unknown op <{op}>"
-      if !diverged then
+      let cfhAsked := isCfh && (words ret).getLast? == some "1"
+      if isCfh && !diverged then
+        -- the real cfHandler on a resumed sync: the model decides whether the checkpointed phase is
+        -- entered from this start state and whom its first pass bans; the rest of the handler's run
+        -- (which peer answers which query when) is judged by the oracle alone
+        let r := cfStart 1000 e.hardFn st (e.net 0) e.cpl
+        if r.2.isSome != cfhAsked then
+          out := out.push s!"DIFF C03 case {c.num} line {ln}: cfh from filter tip {st.fstore.length - 1}, block tip {st.blocks.length - 1}: model enters the checkpointed phase = {r.2.isSome}, impl asked for checkpoints = {cfhAsked}"
+        let hp := (hardPass 1000 e.hardFn st (capLists 1000 (st.blocks.length - 1) e.cpl)).1
+        let want := (hp.bans.drop st.bans.length).map (·.1)
+        let got := peersOfBans d.bans
+        if cfhAsked && !want.all got.contains then
+          out := out.push s!"DIFF C03 case {c.num} line {ln}: cfh: model's hard-coded pass bans {want}, impl banned {got}"
+        diverged := true
+      else if !diverged then
         match cands.find? (fun x => x.2 == obs) with
         | some (s', _) => st := s'
         | none =>
@@ -301,7 +325,7 @@ def runCase : CaseFn := fun c => Id.run do
           out := out.push s!"DIFF C03 case {c.num} line {ln}: {op} impl=<{obs}> model∈<{alts}>"
           diverged := true
       -- ---------- oracle (implementation observations + ground truth only) ----------
-      if (ret == "PANIC" && !isFetch) || ret.endsWith "HANG" then
+      if (ret == "PANIC" && !isFetch) || ret.endsWith "HANG" || (ret.splitOn "+HANG").length > 1 then
         out := out.push (fail "crash" s!"call ended in {ret}")
       if !notAheadObs d.btH d.ftH d.fs then
         out := out.push (fail "ahead" "filter-header store ahead of the block-header store, or its tip is not its last entry")
@@ -315,6 +339,10 @@ def runCase : CaseFn := fun c => Id.run do
       if !checkpointsObs e.hard d.fs && checkpointsObs e.hard oldFs then
         if isRound || ws.head? == some "wr" then
           out := out.push (fail "tip-path-skips-hardcoded-checkpoint" "a filter header committed on the at-tip path differs from the hard-coded checkpoint at its height")
+        else if isCfh then
+          -- a (re)started sync with a hard-coded height between its filter tip and its block tip: not the
+          -- recorded at-tip situation (there the checkpointed phase legitimately does not run)
+          out := out.push (fail "resumed-sync-contradicts-hardcoded-checkpoint" s!"cfHandler started with filter tip {oldFs.length - 1} below block tip {d.btH.getD 0} committed a filter header that differs from the hard-coded checkpoint at its height")
         else
           out := out.push (fail "checkpoint" "stored filter header differs from a hard-coded checkpoint")
       -- ---------- checkpoint lists (implementation observations + ground truth only) ----------
@@ -334,6 +362,15 @@ def runCase : CaseFn := fun c => Id.run do
             out := out.push (fail "checkpoint-disagreement-missed" s!"checkCFCheckptSanity returned {ret} although the checkpoint lists (or a list and the store) first differ at index {wtxt}; lists {lists}")
           else
             out := out.push (fail "checkpoint-false-disagreement" s!"checkCFCheckptSanity returned {ret} although the first index at which the checkpoint lists or the store differ is {wtxt}; lists {lists}")
+      if ws == ["resolve"] || cfhAsked then
+        -- a peer that served a checkpoint list contradicting a hard-coded checkpoint (at ANY index,
+        -- also one at or below the filter tip) is banned
+        let bannedNow := peersOfBans d.bans
+        let bt := d.btH.getD 0
+        for pl in e.cpl do
+          let served := if isCfh then pl.2.take (bt / 1000) else pl.2
+          if !banned.contains pl.1 && cpListContradictsObs e.hard served && !bannedNow.contains pl.1 then
+            out := out.push (fail "hardcoded-checkpoint-liar-not-banned" s!"peer {pl.1} served a checkpoint list that contradicts a hard-coded filter-header checkpoint (filter tip {oldFs.length - 1}) and was not banned")
       if ws == ["resolve"] then
         let bannedNow := peersOfBans d.bans
         if ret.startsWith "ok" then
@@ -398,6 +435,11 @@ def runCase : CaseFn := fun c => Id.run do
       if isFetch then
         if !cpAppendedObs H 1000 e.evs oldFs d.fs then
           out := out.push (fail "unserved" "filter headers appended by the checkpointed fetch are not hash chains of delivered batches, each starting at the then-current tip")
+      else if isCfh then
+        -- many queries, answered by whoever is still connected: the per-batch "hash chain of a served
+        -- batch" clause does not apply; the store is judged by the clauses above (not ahead, changed at
+        -- its end only, hard-coded checkpoints, bans)
+        pure ()
       else if !appendedObs H oldFs d.fs servedLists then
         out := out.push (fail "unserved" "appended filter headers are not the hash chain of any served batch starting at the old tip")
       match midChain with
